@@ -69,6 +69,9 @@ func (x *Exec) implementsFacts(iface types.Type) int64 {
 		tid := x.eng.typeTag(t)
 		x.vc.Assert(Eq(app(SBool, "implements", IntLit(tid), IntLit(id)), BoolLit(types.Implements(t, it))))
 	}
+	for _, t := range []types.Type{x.eng.namedPtr("bytes", "Buffer")} {
+		x.vc.Assert(Eq(app(SBool, "implements", IntLit(x.eng.typeTag(t)), IntLit(id)), BoolLit(types.Implements(t, it))))
+	}
 	x.vc.Assert(Not(app(SBool, "implements", IntLit(0), IntLit(id))))
 	return id
 }
